@@ -71,6 +71,10 @@ func install() {
 
 func newScreen(wd, ht int) tcell.Screen {
 	pg = &page{w: 80, h: 24, cells: map[[2]int]pcell{}}
+	// a fresh page: none of the callbacks of an earlier screen is defined
+	for _, n := range []string{"onKeyEvent", "onMouseClick", "onMouseMove", "onFocus", "onPaste"} {
+		js.Global().Delete(n)
+	}
 	s, err := tcell.NewTerminfoScreen()
 	if err != nil {
 		panic(err)
@@ -621,7 +625,7 @@ func modes() {
 		return
 	}
 	g := js.Global()
-	opsN := []string{"EnableMouse()", "EnableMouse(buttons)", "DisableMouse", "EnablePaste", "DisablePaste", "EnableFocus", "Suspend", "Resume"}
+	opsN := []string{"EnableMouse()", "EnableMouse(buttons)", "DisableMouse", "EnablePaste", "DisablePaste", "EnableFocus", "Suspend", "Resume", "DisableFocus"}
 	maxLen := 4
 	if hc.Thorough() {
 		maxLen = 5
@@ -675,6 +679,9 @@ func modes() {
 			case 7:
 				_ = s.Resume()
 				running = true
+			case 8:
+				s.DisableFocus()
+				focus = false
 			}
 			if !tcell.VerifWasmLockFree(s) {
 				w.Violation("wasm-wedge:"+opsN[o], fmt.Sprintf("sequence %v: the call returned with the screen lock still held", names), nil)
@@ -682,9 +689,6 @@ func modes() {
 				break
 			}
 			poll(s)
-			if !running {
-				continue
-			}
 			type probe struct {
 				name string
 				call func()
@@ -703,13 +707,28 @@ func modes() {
 			if focus {
 				wantFocus = []ri.Ev{{Kind: "focus", Flag: true}}
 			}
+			wantKey := []ri.Ev{{Kind: "key", Key: tcell.KeyRune, Rune: 'k'}}
+			if !running {
+				// "Suspend simply pauses all input and output": nothing the page reports while
+				// the screen is suspended becomes an event, whatever was enabled before or since
+				wantKey, wantClick, wantMove, wantPaste, wantFocus = nil, nil, nil, nil, nil
+			}
 			call := func(name string, args ...interface{}) {
-				if g.Get(name).Type() == js.TypeFunction { // a callback the screen never installed is simply absent
-					g.Call(name, args...)
+				// the page script (webfiles/tcell.js) calls all five unconditionally: one the
+				// screen has not installed throws in its listener and takes the input with it
+				if g.Get(name).Type() != js.TypeFunction {
+					w.Violation("wasm-callback-missing:"+name, fmt.Sprintf("after %v the page script's callback %s is not a function: its listener throws a ReferenceError and what it was about to deliver is lost", names, name), map[string]interface{}{"sequence": names})
+					bad = true
+					return
 				}
+				g.Call(name, args...)
+			}
+			state := "running"
+			if !running {
+				state = "suspended"
 			}
 			for _, pr := range []probe{
-				{"onKeyEvent(k)", func() { call("onKeyEvent", "k", false, false, false, false) }, []ri.Ev{{Kind: "key", Key: tcell.KeyRune, Rune: 'k'}}},
+				{"onKeyEvent(k)", func() { call("onKeyEvent", "k", false, false, false, false) }, wantKey},
 				{"onMouseClick(button 1)", func() { call("onMouseClick", 1, 1, 1, false, false, false) }, wantClick},
 				{"onMouseMove(no button)", func() { call("onMouseMove", 2, 1, 0, false, false, false) }, wantMove},
 				{"onPaste(true)", func() { call("onPaste", true) }, wantPaste},
@@ -717,7 +736,7 @@ func modes() {
 			} {
 				pr.call()
 				if got := poll(s); !ri.EqEvs(got, pr.want) {
-					w.Violation("wasm-modes:"+pr.name, fmt.Sprintf("after %v (running, mouse flags %03b, paste %v, focus %v): %s delivered %v, want %v", names, mouse, paste, focus, pr.name, got, pr.want), map[string]interface{}{"sequence": names})
+					w.Violation("wasm-modes:"+pr.name, fmt.Sprintf("after %v (%s, mouse flags %03b, paste %v, focus %v): %s delivered %v, want %v", names, state, mouse, paste, focus, pr.name, got, pr.want), map[string]interface{}{"sequence": names})
 					bad = true
 				}
 			}
